@@ -28,7 +28,7 @@ ASSUMPTIONS = [
 ]
 BUDGET = {"quick": 75, "thorough": 800}
 ROUNDS = {"thorough": 16}
-FLOORS = {"after_update_comparisons": {"quick": 400, "thorough": 4000}, "batched_heights_rows": {"quick": 300, "thorough": 3000}, "reference_comparisons": {"quick": 800, "thorough": 8000}, "metamorphic_checks": {"quick": 500, "thorough": 5000},
+FLOORS = {"float32_default_evaluations": {"quick": 100, "thorough": 1000}, "after_update_comparisons": {"quick": 400, "thorough": 4000}, "batched_heights_rows": {"quick": 300, "thorough": 3000}, "reference_comparisons": {"quick": 800, "thorough": 8000}, "metamorphic_checks": {"quick": 500, "thorough": 5000},
           "models": 6, "schemes": 4, "permuted": 300, "batched_rows": 100, "grids_given_by_cutoff": 40}
 
 MODELS = ["constant", "exponential", "skyride", "skygrid", "linear", "piecewise-exponential"]
@@ -387,6 +387,18 @@ def run_case(case):
         v2 = float(tt.as_np(dist.log_prob(hs), "C08:not-a-tensor:" + m).reshape(-1)[0])
         C["permuted"] += 1
         C["reference_comparisons"] += 1
+        # the same call (a distribution holding float64 tensors, float64 heights) while the process-wide default dtype is float32 - the
+        # library used as a library, the state its own tests run in: what log_prob allocates itself follows its inputs, not the default
+        if case["seed"] % 2 == 0:
+            old_dt = torch.get_default_dtype()
+            torch.set_default_dtype(torch.float32)
+            try:
+                v32 = float(tt.as_np(dist.log_prob(hs), "C08:not-a-tensor:" + m).reshape(-1)[0])
+            finally:
+                torch.set_default_dtype(old_dt)
+            C["float32_default_evaluations"] = 1
+            if not abs(v32 - v2) <= 1e-12 * max(1.0, abs(v2)):
+                V.append(tt.viol("C08:value:%s:float32-default-dtype" % m, "%s: log_prob of float64 heights gives %.15g while the default dtype is float32, %.15g while it is float64" % (m, v32, v2), **detail))
         if abs(v2 - refs[0]) > 1e-9 * max(1.0, abs(refs[0])) and m != "skyride":
             V.append(tt.viol("C08:permutation:" + m, "distribution().log_prob on a permuted height vector gives %.15g, reference %.15g" % (v2, refs[0]), **detail))
         if m == "skyride" and abs(v2 - refs[0]) > 1e-9 * max(1.0, abs(refs[0])):
